@@ -198,31 +198,136 @@ Qed.
 
 Theorem keyint_accept_iff G key m1 c m2 :
   keyint_verify G key m1 c m2 = Accept <->
-  check_element G m1 = true /\ Z.abs m2 < gq G /\
-  exists v kc ki, fpowm_aliased (gtg G) (tlen G) (gg G) m2 (gp G) = Some v /\ mpz_powm key c (gp G) = Some kc /\
+  check_element G m1 = true /\ check_element G key = true /\ Z.abs m2 < gq G /\
+  exists v kc ki, fpowm (gtg G) (tlen G) (gg G) m2 (gp G) = Some v /\ mpz_powm key c (gp G) = Some kc /\
                   invm kc (gp G) = Some ki /\ m1 = (v * ki) mod gp G.
 Proof.
   unfold keyint_verify. split.
-  - destruct (check_element G m1); cbn [negb]; [|discriminate].
+  - destruct (check_element G m1); cbn [negb andb]; [|discriminate].
+    destruct (check_element G key); cbn [negb]; [|discriminate].
     destruct (Z.leb_spec (gq G) (Z.abs m2)); [discriminate|].
-    destruct (fpowm_aliased (gtg G) (tlen G) (gg G) m2 (gp G)) as [v|]; [|discriminate].
+    destruct (fpowm (gtg G) (tlen G) (gg G) m2 (gp G)) as [v|]; [|discriminate].
     destruct (mpz_powm key c (gp G)) as [kc|]; [|discriminate].
     destruct (invm kc (gp G)) as [ki|] eqn:EI; [|discriminate].
     destruct (Z.eqb_spec m1 ((v * ki) mod gp G)); [|discriminate].
     intros _. repeat split; try lia. exists v, kc, ki. repeat split; auto.
-  - intros (A & B & v & kc & ki & C & D & E & F). rewrite A. cbn [negb].
+  - intros (A & A' & B & v & kc & ki & C & D & E & F). rewrite A, A'. cbn [negb andb].
     destruct (Z.leb_spec (gq G) (Z.abs m2)); [lia|]. rewrite C, D, E, <- F. now rewrite Z.eqb_refl.
 Qed.
 
-(* the code as it is: the sign of the response is ignored (the aliasing of res and x in tmcg_mpz_fpowm), so the
-   non-equivalent value -m2 is accepted whenever m2 is: binding of the interactive response is refuted *)
-Theorem keyint_sign_ignored G key m1 c m2 : keyint_verify G key m1 c (- m2) = keyint_verify G key m1 c m2.
-Proof. unfold keyint_verify, fpowm_aliased. now rewrite Z.abs_opp. Qed.
+(* ---- mpz_invert: a returned value is an inverse ------------------------------------------------------------ *)
+Lemma egcd_fuel_inv a p : forall fuel r0 r1 s0 s1,
+  (exists t0, r0 = s0 * a + t0 * p) -> (exists t1, r1 = s1 * a + t1 * p) ->
+  exists t, fst (egcd_fuel fuel r0 r1 s0 s1) = snd (egcd_fuel fuel r0 r1 s0 s1) * a + t * p.
+Proof.
+  induction fuel as [|f IH]; intros r0 r1 s0 s1 [t0 H0] [t1 H1]; cbn [egcd_fuel].
+  - exists t0. exact H0.
+  - destruct (Z.eqb_spec r1 0).
+    + exists t0. exact H0.
+    + apply IH; [now exists t1|]. exists (t0 - r0 / r1 * t1). rewrite H0 at 1. rewrite H1 at 2. ring.
+Qed.
+
+Theorem invm_spec a p i : 1 < p -> invm a p = Some i -> 0 <= i < p /\ (i * a) mod p = 1.
+Proof.
+  intros Hp. unfold invm. destruct (Z.leb_spec p 0); [lia|].
+  set (F := S (2 * Z.to_nat (Z.log2_up p + 1))).
+  assert (I : exists t, fst (egcd_fuel F (a mod p) p 1 0) = snd (egcd_fuel F (a mod p) p 1 0) * a + t * p).
+  { apply egcd_fuel_inv.
+    - exists (- (a / p)). pose proof (Z.div_mod a p ltac:(lia)). lia.
+    - exists 1. ring. }
+  destruct (egcd_fuel F (a mod p) p 1 0) as [g s]. cbn [fst snd] in I. destruct I as [t I].
+  destruct (Z.eqb_spec g 1) as [G1|].
+  - intros E. inversion E; subst i. split; [apply Z.mod_pos_bound; lia|].
+    rewrite Zmult_mod_idemp_l. replace (s * a) with (1 + (- t) * p) by lia.
+    rewrite Z.mod_add by lia. apply Z.mod_1_l. lia.
+  - destruct (Z.eqb_spec p 1); [lia|discriminate].
+Qed.
+
+(* ---- the interactive response is bound modulo q, negative representatives included ------------------------- *)
+Section KeyInt.
+  Variable G : grp.
+  Hypothesis Hp : 1 < gp G.
+  Hypothesis Hq : prime (gq G).
+  Hypothesis Hgq : powm (gg G) (gq G) (gp G) = 1.
+  Hypothesis Hg1 : gg G mod gp G <> 1.
+  Hypothesis Htab : bits (gq G) <= TMCG_MAX_FPOWM_T.
+
+  Let q_pos : 1 < gq G.
+  Proof. destruct Hq. lia. Qed.
+
+  Lemma bits_pos z : 1 <= bits z.
+  Proof. unfold bits. destruct (Z.eqb_spec z 0); [lia|]. pose proof (Z.log2_nonneg (Z.abs z)). lia. Qed.
+
+  Lemma walk_in_range a : 0 <= a < gq G -> table_walk (tlen G) (gg G) a (gp G) = powm (gg G) a (gp G).
+  Proof.
+    intros Ha. unfold table_walk. destruct (Z.eqb_spec a 0) as [->|N].
+    - cbn [powm]. symmetry. apply Z.mod_1_l. lia.
+    - assert (B : bits a <= bits (gq G)) by (apply bits_mono; lia).
+      unfold tlen. destruct (Z.leb_spec (bits a) (Z.min (bits (gq G)) TMCG_MAX_FPOWM_T)); [reflexivity|lia].
+  Qed.
+
+  (* a response in (-q, q) is raised as its residue modulo q: negative values go through the inversion *)
+  Theorem fpowm_in_range x v : - gq G < x < gq G ->
+    fpowm (gtg G) (tlen G) (gg G) x (gp G) = Some v -> v = powm (gg G) (x mod gq G) (gp G).
+  Proof.
+    intros Hx. unfold fpowm.
+    destruct (Z.eqb_spec (gg G) (gtg G)); cbn [negb]; [|discriminate].
+    assert (Ba : bits (Z.abs x) <= TMCG_MAX_FPOWM_T).
+    { assert (bits (Z.abs x) <= bits (gq G)) by (apply bits_mono; lia). lia. }
+    destruct (Z.ltb_spec TMCG_MAX_FPOWM_T (bits (Z.abs x))); [lia|].
+    rewrite walk_in_range by lia.
+    destruct (Z.ltb_spec x 0) as [Neg|Pos].
+    - intros E. apply invm_spec in E; [|assumption]. destruct E as [Rv E].
+      set (a := Z.abs x) in *. assert (Ha : 0 < a < gq G) by (unfold a; lia).
+      replace (x mod gq G) with (gq G - a).
+      2:{ unfold a. rewrite Z.abs_neq by lia. symmetry. replace x with (gq G - - x + (-1) * gq G) at 1 by lia.
+          rewrite Z.mod_add by lia. apply Z.mod_small. lia. }
+      (* v = v * (g^a * g^(q-a)) = (v * g^a) * g^(q-a) = g^(q-a) *)
+      assert (P : (powm (gg G) a (gp G) * powm (gg G) (gq G - a) (gp G)) mod gp G = 1).
+      { rewrite <- powm_add by lia. replace (a + (gq G - a)) with (gq G) by lia. rewrite Hgq. reflexivity || (apply Z.mod_1_l; lia). }
+      assert (R2 : 0 <= powm (gg G) (gq G - a) (gp G) < gp G) by (apply powm_range; lia).
+      rewrite <- (Z.mod_small v (gp G)) by lia.
+      rewrite <- (Z.mul_1_r v). rewrite <- P. rewrite Zmult_mod_idemp_r.
+      rewrite Z.mul_assoc. rewrite <- Zmult_mod_idemp_l. rewrite E. rewrite Z.mul_1_l. apply Z.mod_small. assumption.
+    - intros E. inversion E. rewrite Z.abs_eq by lia. now rewrite Z.mod_small by lia.
+  Qed.
+
+  (* two accepted responses to the same (key, m1, c) are the same residue modulo q: a response of a different
+     residue is refused unconditionally (no hash involved) *)
+  Theorem keyint_response_bound key m1 c m2 m2' :
+    keyint_verify G key m1 c m2 = Accept -> keyint_verify G key m1 c m2' = Accept -> m2 mod gq G = m2' mod gq G.
+  Proof.
+    intros A B. apply keyint_accept_iff in A, B.
+    destruct A as (_ & _ & R & v & kc & ki & F1 & K1 & I1 & E1).
+    destruct B as (_ & _ & R' & v' & kc' & ki' & F2 & K2 & I2 & E2).
+    rewrite K1 in K2. inversion K2; subst kc'. rewrite I1 in I2. inversion I2; subst ki'.
+    apply fpowm_in_range in F1; [|lia]. apply fpowm_in_range in F2; [|lia]. subst v v'.
+    apply invm_spec in I1; [|assumption]. destruct I1 as [_ I1].
+    assert (M : 0 <= m2 mod gq G < gq G) by (apply Z.mod_pos_bound; lia).
+    assert (M' : 0 <= m2' mod gq G < gq G) by (apply Z.mod_pos_bound; lia).
+    rewrite E1 in E2.
+    apply (recommit_inj (gp G) (gq G) (gg G) Hp Hq Hgq Hg1 (m2 mod gq G) (m2' mod gq G) ki kc) in E2; try lia.
+    rewrite !Z.mod_mod in E2 by lia. exact E2.
+  Qed.
+
+  Corollary keyint_other_residue_rejected key m1 c m2 m2' :
+    keyint_verify G key m1 c m2 = Accept -> m2 mod gq G <> m2' mod gq G -> keyint_verify G key m1 c m2' <> Accept.
+  Proof. intros A N B. apply N. eapply keyint_response_bound; eassumption. Qed.
+End KeyInt.
+
+(* the key share must be a member of the subgroup (0abf554) *)
+Corollary keyint_key_member G key m1 c m2 : keyint_verify G key m1 c m2 = Accept ->
+  0 < key < gp G /\ powm key (gq G) (gp G) = 1.
+Proof.
+  intros A. apply keyint_accept_iff in A. destruct A as (_ & E & _).
+  unfold check_element in E. apply andb_true_iff in E. destruct E as [E E3].
+  apply andb_true_iff in E. destruct E as [E1 E2]. apply Z.ltb_lt in E1, E2. apply Z.eqb_eq in E3. lia.
+Qed.
 
 (* ---- OR proof: the two challenge parts only enter through their sum modulo q and as exponents ---------- *)
 Theorem or_accept_iff H G y1 y2 g1 g2 c1 c2 r1 r2 :
   or_verify H G y1 y2 g1 g2 c1 c2 r1 r2 = Accept <->
-  Z.abs r1 < gq G /\ Z.abs r2 < gq G /\
+  Z.abs r1 < gq G /\ Z.abs r2 < gq G /\ Z.abs c1 < gq G /\ Z.abs c2 < gq G /\
   exists a1 b1 a2 b2, mpz_powm y1 c1 (gp G) = Some a1 /\ mpz_powm g1 r1 (gp G) = Some b1 /\
     mpz_powm y2 c2 (gp G) = Some a2 /\ mpz_powm g2 r2 (gp G) = Some b2 /\
     (c1 + c2) mod gq G = H (or_hash_input G g1 y1 g2 y2 ((a1 * b1) mod gp G) ((a2 * b2) mod gp G)) mod gq G.
@@ -230,31 +335,26 @@ Proof.
   unfold or_verify. split.
   - destruct (Z.leb_spec (gq G) (Z.abs r1)); cbn [orb]; [discriminate|].
     destruct (Z.leb_spec (gq G) (Z.abs r2)); [discriminate|].
+    destruct (Z.leb_spec (gq G) (Z.abs c1)); cbn [orb]; [discriminate|].
+    destruct (Z.leb_spec (gq G) (Z.abs c2)); [discriminate|].
     destruct (mpz_powm y1 c1 (gp G)) as [a1|]; [|discriminate].
     destruct (mpz_powm g1 r1 (gp G)) as [b1|]; [|discriminate].
     destruct (mpz_powm y2 c2 (gp G)) as [a2|]; [|discriminate].
     destruct (mpz_powm g2 r2 (gp G)) as [b2|]; [|discriminate].
     match goal with |- context [if ?a =? ?b then _ else _] => destruct (Z.eqb_spec a b) end; [|discriminate].
     intros _. repeat split; try lia. exists a1, b1, a2, b2. repeat split; auto.
-  - intros (A & B & a1 & b1 & a2 & b2 & E1 & E2 & E3 & E4 & E5).
+  - intros (A & B & C & D & a1 & b1 & a2 & b2 & E1 & E2 & E3 & E4 & E5).
     destruct (Z.leb_spec (gq G) (Z.abs r1)); [lia|]. destruct (Z.leb_spec (gq G) (Z.abs r2)); [lia|]. cbn [orb].
+    destruct (Z.leb_spec (gq G) (Z.abs c1)); [lia|]. destruct (Z.leb_spec (gq G) (Z.abs c2)); [lia|]. cbn [orb].
     rewrite E1, E2, E3, E4, E5. now rewrite Z.eqb_refl.
 Qed.
 
-(* a member y1 (y1^q = 1) raised to c1 + q gives the same value: the challenge part is silently reduced *)
-Lemma powm_plus_q y c p q : 0 < p -> 0 <= c -> 0 <= q -> powm y q p = 1 -> powm y (c + q) p = powm y c p.
-Proof.
-  intros Hp Hc Hq E. rewrite powm_add by lia. rewrite E. rewrite Z.mul_1_r.
-  apply Z.mod_small. apply powm_range; lia.
-Qed.
+(* range rules as coded since fae6d38: all four transmitted values lie in (-q, q) *)
+Corollary or_range_rules H G y1 y2 g1 g2 c1 c2 r1 r2 : or_verify H G y1 y2 g1 g2 c1 c2 r1 r2 = Accept ->
+  - gq G < c1 < gq G /\ - gq G < c2 < gq G /\ - gq G < r1 < gq G /\ - gq G < r2 < gq G.
+Proof. intros A. apply or_accept_iff in A. destruct A as (A & B & C & D & _). lia. Qed.
 
-Theorem or_challenge_not_range_checked H G y1 y2 g1 g2 c1 c2 r1 r2 :
-  0 < gp G -> 0 < gq G -> 0 <= c1 -> powm y1 (gq G) (gp G) = 1 ->
-  or_verify H G y1 y2 g1 g2 (c1 + gq G) c2 r1 r2 = or_verify H G y1 y2 g1 g2 c1 c2 r1 r2.
-Proof.
-  intros Hp Hq Hc E. unfold or_verify, mpz_powm.
-  destruct (Z.ltb_spec (c1 + gq G) 0); [lia|]. destruct (Z.ltb_spec c1 0); [lia|].
-  rewrite powm_plus_q by (try assumption; lia).
-  replace ((c1 + gq G + c2) mod gq G) with ((c1 + c2) mod gq G); [reflexivity|].
-  replace (c1 + gq G + c2) with (c1 + c2 + 1 * gq G) by lia. now rewrite Z.mod_add by lia.
-Qed.
+(* in particular a challenge part shifted by q (the same residue, formerly reduced silently) is refused *)
+Corollary or_plus_q_rejected H G y1 y2 g1 g2 c1 c2 r1 r2 : 0 < gq G -> 0 <= c1 ->
+  or_verify H G y1 y2 g1 g2 (c1 + gq G) c2 r1 r2 <> Accept.
+Proof. intros Hq Hc A. apply or_range_rules in A. lia. Qed.
